@@ -6,9 +6,10 @@ use jrsonnet_evaluator::{
 	runtime_error,
 	stack::check_depth,
 	typed::{BoundedI32, BoundedUsize, Either2, FromUntyped},
-	val::{equals, ArrValue, IndexableVal},
+	val::{equals, ArrValue, IndexableVal, ThunkValue},
 	Either, IStr, ObjValue, ObjValueBuilder, Result, ResultExt, Thunk, Val,
 };
+use jrsonnet_gcmodule::Trace;
 
 pub fn eval_on_empty(on_empty: Option<Thunk<Val>>) -> Result<Val> {
 	if let Some(on_empty) = on_empty {
@@ -72,22 +73,37 @@ pub fn builtin_map_with_index(func: NativeFn!((u32, Val) -> Val), arr: Indexable
 }
 
 #[builtin]
-pub fn builtin_map_with_key(
-	func: NativeFn!((IStr, Val) -> Val),
-	obj: ObjValue,
-) -> Result<ObjValue> {
+pub fn builtin_map_with_key(func: NativeFn!((IStr, Val) -> Val), obj: ObjValue) -> ObjValue {
+	#[derive(Trace)]
+	struct MapWithKeyThunk {
+		func: NativeFn!((IStr, Val) -> Val),
+		obj: ObjValue,
+		key: IStr,
+	}
+	impl ThunkValue for MapWithKeyThunk {
+		type Output = Val;
+
+		fn get(&self) -> Result<Self::Output> {
+			let value = self.obj.get_or_bail(self.key.clone())?;
+			self.func.call(self.key.clone(), value)
+		}
+	}
+
+	// As in the std.jsonnet definition (`{ [k]: func(k, obj[k]) for k in std.objectFields(obj) }`),
+	// neither the field values nor the function results are computed until the mapped field is read.
 	let mut out = ObjValueBuilder::new();
-	for (k, v) in obj.iter(
+	for key in obj.fields(
 		// Makes sense mapped object should be ordered the same way, should not break anything when the output is not ordered (the default).
-		// The thrown error might be different, but jsonnet
-		// does not specify the evaluation order.
 		#[cfg(feature = "exp-preserve-order")]
 		true,
 	) {
-		let v = v?;
-		out.field(k.clone()).value(func.call(k, v)?);
+		out.field(key.clone()).thunk(Thunk::new(MapWithKeyThunk {
+			func: func.clone(),
+			obj: obj.clone(),
+			key,
+		}));
 	}
-	Ok(out.build())
+	out.build()
 }
 
 #[builtin]
